@@ -3,6 +3,8 @@ Engine E1, full grids."""
 import math
 
 PID = 'C08'
+# thread bodies (defined with engine E4, mc/checks/c10_sched.py) that exercise this property's code; explored after the parts below
+SCHED_SETS = [('steep||steep', 'call')]
 LEVEL = 'exploration'
 ENGINE = 'E1'
 TECHNIQUE = 'bounded exhaustive enumeration (full altitude grid, station x query grid incl. both sides of the 30-ft shortcut, full T x P x humidity grid) against an independent ISO 2533 model and monotonicity along every grid line'
